@@ -57,16 +57,16 @@ Proof. vm_compute. repeat split; reflexivity. Qed.
 
 (** the SPARQL group-graph-pattern loops stall on any token that cannot start a pattern element *)
 Lemma sparql_group_stalls_l : forall nm fuel more,
-  run_loop fuel (Sparql.group_loop nm) more [Sparql.OTHER] = LNoFuel.
+  run_loop fuel (Sparql.group_loop_pre nm) more [Sparql.OTHER] = LNoFuel.
 Proof. intros nm fuel more. induction fuel as [|f IH]; [reflexivity|]. cbn. exact IH. Qed.
 
-Lemma sparql_group_not_ok_l : forall nm, loop_ok Sparql.N (Sparql.group_loop nm) = false.
+Lemma sparql_group_not_ok_l : forall nm, loop_ok Sparql.N (Sparql.group_loop_pre nm) = false.
 Proof. intro nm. reflexivity. Qed.
 
 (** without the stalling kind the same loops do progress *)
 Lemma sparql_group_progress_l : forall nm more fuel ts,
   Forall (fun k => 1 <= k < 5) ts -> (List.length ts < fuel)%nat ->
-  run_loop fuel (Sparql.group_loop nm) more ts <> LNoFuel.
+  run_loop fuel (Sparql.group_loop_pre nm) more ts <> LNoFuel.
 Proof.
   intros nm more. induction fuel as [|f IH]; intros ts Hts Hlen; [lia|].
   destruct ts as [|k r].
